@@ -27,6 +27,10 @@ func matchLine(sys resolve.System, req string, vs []V) string {
 	return fmt.Sprintf("C12 matchreq %s %s %s", resolveops.SysName(sys), fw.Hx(req), resolveops.EncList(sys, resolveops.PName, vs))
 }
 
+func classifyLine(sys resolve.System, vs []V) string {
+	return fmt.Sprintf("C12 classify %s %s", resolveops.SysName(sys), resolveops.EncList(sys, resolveops.PName, vs))
+}
+
 func sortLine(sys resolve.System, vs []V) string {
 	return fmt.Sprintf("C12 sortv %s %s", resolveops.SysName(sys), resolveops.EncList(sys, resolveops.PName, vs))
 }
@@ -344,6 +348,7 @@ func caseOf(c *fw.Ctx, sys resolve.System, vs []V, req string, perms int) {
 		sidx = append(sidx, i)
 	}
 	c.Check("perm", sidx...)
+	c.Op(classifyLine(sys, vs)) // ties the classifiers to the Lean hypotheses
 
 	// distribution
 	name := resolveops.SysName(sys)
